@@ -118,18 +118,22 @@ def position_mark(c):
     before = pnl_clauses(c, pos, s['Gb'], s['Gs'], s['bc'], s['sc'], 'before/')
     m = c.real('mark', lambda r: round(r.uniform(-5, 300), 2))
     t = c.time('mark_dt')
+    untimed = bool(c.bool('mark_without_timestamp'))          # (the timestamp of a mark is optional)
     try:
-        pos.update_current_price(m, t)
+        if untimed:
+            pos.update_current_price(m)
+        else:
+            pos.update_current_price(m, t)
     except ValueError:
-        c.ob('raises-only-if-nonpositive-or-earlier', OR(LE(m, 0), LT(t, s['t0'])))
+        c.ob('raises-only-if-nonpositive-or-earlier', OR(LE(m, 0), False if untimed else LT(t, s['t0'])))
         c.ob('unchanged-on-raise', AND(EQ(pos.current_price, s['cp']), EQ(pos.buy_quantity, s['bq']),
                                        EQ(pos.sell_quantity, s['sq']), EQ(pos.avg_bought, s['ab']),
                                        EQ(pos.avg_sold, s['as_']), EQ(pos.buy_commission, s['bc']),
                                        EQ(pos.sell_commission, s['sc'])), props=['C15', 'C03'])
         return
-    c.ob('accepted-only-if-positive-and-not-earlier', AND(GT(m, 0), GE(t, s['t0'])))
+    c.ob('accepted-only-if-positive-and-not-earlier', AND(GT(m, 0), True if untimed else GE(t, s['t0'])))
     c.ob('price-is-mark', EQ(pos.current_price, m))
-    c.ob('clock-is-mark-time', EQ(pos.current_dt, t))
+    c.ob('clock-is-mark-time', EQ(pos.current_dt, s['t0'] if untimed else t), kind='A')
     c.ob('quantities-averages-commissions-unchanged',
          AND(EQ(pos.buy_quantity, s['bq']), EQ(pos.sell_quantity, s['sq']), EQ(pos.avg_bought, s['ab']),
              EQ(pos.avg_sold, s['as_']), EQ(pos.buy_commission, s['bc']), EQ(pos.sell_commission, s['sc'])))
